@@ -1513,10 +1513,9 @@ impl UntypedExpr {
 
                     for (_, expr) in typed_clauses.iter_mut() {
                         if ret_ty != expr.ty {
-                            if let Type::Unsigned(expected) = ret_ty {
-                                check_or_constrain_unsigned(expr, expected)?;
-                            } else if let Type::Signed(expected) = ret_ty {
-                                check_or_constrain_signed(expr, expected)?;
+                            if let Type::Unsigned(_) | Type::Signed(_) = ret_ty {
+                                // reaches the literals inside the block of the clause
+                                constrain_type(expr, &ret_ty)?;
                             } else {
                                 let e = TypeErrorEnum::UnexpectedType {
                                     expected: ret_ty.clone(),
